@@ -495,6 +495,19 @@ impl C16 {
                         format!("decode(async output) != decode(sync output): first difference at item {i:?}; async end {:?}", oa.end),
                     ));
                 }
+                // CRAM: the container headers' record counts, global record counters and base counts
+                // (read by the harness' own walker) are part of what the files decode to
+                if file.kind == kinds::Kind::Cram {
+                    let hdr = |b: &[u8]| crate::fmt::cram::containers(b).map(|cs| cs.iter().map(|c| (c.n_records, c.record_counter, c.bases)).collect::<Vec<_>>());
+                    match (hdr(&out), hdr(&sync_bytes)) {
+                        (Ok(a), Ok(s)) if a != s => {
+                            return Some(v(&comp, "async-sync-mismatch", "container-headers", format!("(records, record counter, bases) per container: async {a:?} / sync {s:?}")));
+                        }
+                        (Err(e), Ok(_)) => return Some(v(&comp, "malformed-output", "cram-walker-reject", e)),
+                        _ => {}
+                    }
+                    stats.probe("cram_container_headers_compared", 1);
+                }
                 if !file.kind.is_bgzf_container() && !faio::compressed_kind(file.kind) {
                     if *out != sync_bytes {
                         let at = out.iter().zip(&sync_bytes).position(|(a, b)| a != b).unwrap_or(out.len().min(sync_bytes.len()));
